@@ -261,6 +261,7 @@ public:
         if (dims == _view.dimensions() && _align_in_bytes == alignment)
             return;
 
+        std::size_t const previous_alignment = _align_in_bytes;
         _align_in_bytes = alignment;
 
         if (_allocated_bytes >= total_allocated_size_in_bytes(dims))
@@ -271,6 +272,8 @@ public:
         }
         else
         {
+            // keep the recorded alignment of the current layout if the allocation throws
+            _align_in_bytes = previous_alignment;
             image tmp(dims, alignment);
             swap(tmp);
         }
@@ -286,6 +289,7 @@ public:
         if (dims == _view.dimensions() && _align_in_bytes == alignment)
             return;
 
+        std::size_t const previous_alignment = _align_in_bytes;
         _align_in_bytes = alignment;
 
         if (_allocated_bytes >= total_allocated_size_in_bytes(dims))
@@ -296,6 +300,8 @@ public:
         }
         else
         {
+            // keep the recorded alignment of the current layout if the allocation throws
+            _align_in_bytes = previous_alignment;
             image tmp(dims, p_in, alignment);
             swap(tmp);
         }
@@ -312,6 +318,7 @@ public:
         if (dims == _view.dimensions() && _align_in_bytes == alignment && alloc_in == _alloc)
             return;
 
+        std::size_t const previous_alignment = _align_in_bytes;
         _align_in_bytes = alignment;
 
         if (_allocated_bytes >= total_allocated_size_in_bytes(dims))
@@ -322,6 +329,8 @@ public:
         }
         else
         {
+            // keep the recorded alignment of the current layout if the allocation throws
+            _align_in_bytes = previous_alignment;
             image tmp(dims, alignment, alloc_in);
             swap(tmp);
         }
@@ -337,6 +346,7 @@ public:
         if (dims == _view.dimensions() && _align_in_bytes == alignment && alloc_in == _alloc)
             return;
 
+        std::size_t const previous_alignment = _align_in_bytes;
         _align_in_bytes = alignment;
 
         if (_allocated_bytes >= total_allocated_size_in_bytes(dims))
@@ -347,6 +357,8 @@ public:
         }
         else
         {
+            // keep the recorded alignment of the current layout if the allocation throws
+            _align_in_bytes = previous_alignment;
             image tmp(dims, p_in, alignment, alloc_in);
             swap(tmp);
         }
